@@ -173,6 +173,10 @@ def make_generic(rng, i):
     where = (" where " + wkind) if ("T" in used and wkind) else ""
     if "'a" in used and "T" in used:
         where = (where + ", " if where else " where ") + "T: 'a"
+    if where and rng.random() < 0.3:
+        where += ","                       # a trailing comma, as rustfmt writes a multi-line where-clause
+    elif not where and rng.random() < 0.05:
+        where = " where"                   # a bare `where` without predicates (legal)
     g = "<%s>" % ", ".join(params) if params else ""
     order = sorted(traits, key=lambda t: rng.random())
     if dbg_type:
@@ -239,7 +243,11 @@ def make_access(rng, i):
                 fs.append([[], FIELD_NAMES[n], into_t])
                 k = n
             cands = [j for j, f in enumerate(fs) if f[2] == into_t]
-            if len(fs) > 1 and (len(cands) > 1 or rng.random() < 0.5):
+            if into_t == "u16" and rng.random() < 0.4 and not fs[k][0]:
+                # a generic field that has to be converted: the impl needs the automatic predicate `T: Into<u16>`
+                fs[k][2] = "T"
+                fs[k][0].append("Into(%s)" % into_t)
+            elif len(fs) > 1 and (len(cands) > 1 or rng.random() < 0.5):
                 fs[k][0].append("Into(%s)" % into_t)
             if with_deref and len(fs) > 1 and not fs[d][0]:
                 fs[d][0] += ["Deref"] + (["DerefMut"] if with_mut else [])
@@ -272,6 +280,12 @@ def make_access(rng, i):
     if "N]" in used_src:
         params.append("const N: usize")
     where = " where T: 'a" if ("'a" in params and "T" in params) else ""
+    if not where and "T" in params and rng.random() < 0.3:
+        where = " where T: Sized"
+    if where and rng.random() < 0.4:
+        where += ","                       # trailing comma
+    elif not where and rng.random() < 0.05:
+        where = " where"                   # no predicates at all
     traits = (["Deref"] + (["DerefMut"] if with_mut else []) if with_deref else []) + (["Into(%s)" % into_t] if into_t else []) + extra
     rng.shuffle(traits)
     g = "<%s>" % ", ".join(params) if params else ""
